@@ -92,7 +92,11 @@ Inductive op : Type :=
 | ONop
 | ONthreads                             (* nthreads       get_info(INFO_THREAD_NUM) of the own vCPU *)
 | OReleased (k : tid)                   (* released k     how often the stack of thread k was handed back *)
-| OMigrate (k : tid) (u : nat).         (* migrate k u    photon::thread_migrate(thread k, vCPU u) *)
+| OMigrate (k : tid) (u : nat)          (* migrate k u    photon::thread_migrate(thread k, vCPU u) *)
+| OWaitAll                              (* waitall        photon::wait_all() by the main thread of a vCPU (2200-2217) *)
+| OFini.                                (* fini           photon::vcpu_fini() by the main thread of a vCPU (2334-2350) *)
+Definition is_fini (o : op) : bool := match o with OFini => true | _ => false end.
+Definition is_nil {A : Type} (l : list A) : bool := match l with [] => true | _ => false end.
 
 Inductive label : Type :=
 | LStep (v : nat) | LDrain (v : nat) | LResume (v : nat) | LSteal (v u : nat) (t : tid) | LTick (d : Z).
@@ -230,10 +234,16 @@ Section RUN.
      parks instead and stays a valid target *)
   Definition finished_a (s : state) (k : tid) : bool :=
     is_user (th_kind (getth s k)) && negb (th_fresh (getth s k)) && finished_h s k.
+  (* vCPU v is OFFLINE: its main thread (thread v) has completed a `fini` op = photon::vcpu_fini() returned: the
+     vCPU left the pvcpu list (go_offline), its idler was joined and the vcpu_t and the main thread object were
+     destroyed (2343-2349).  No new state: the fact is read off the main thread's pc. *)
+  Definition offline (s : state) (v : nat) : bool :=
+    Nat.ltb v (s_nv s) && existsb is_fini (firstn (th_pc (getth s v)) (progs v)).
   Definition alive (s : state) (k : tid) : bool :=
     let th := getth s k in
     Nat.ltb k (s_n s) && negb (tstate_eqb (th_state th) NOTCREATED) &&
-    (negb (finished_a s k) || (th_joinable th && Nat.eqb (g_joinret th) 0)).
+    (negb (finished_a s k) || (th_joinable th && Nat.eqb (g_joinret th) 0)) &&
+    negb (offline s k).                                     (* the main thread object of a finished vCPU is deleted *)
 
   (* the thread whose stack vCPU v is physically executing on: until the pending part of a switch
      has run this is still the OLD thread *)
@@ -387,6 +397,41 @@ Section RUN.
       let s1 := modth s j (fun x => set_th_lock x LJoin) in
       do_sleep (setk s1 c 2) v MAX64 (Some j) (DUnlock j).
 
+  (* wait_all (2200-2212): `while (!AtomicRunQ(rq).size_1or2() || !sleepq.empty() || !standbyq.empty())`;
+     size_1or2 (688) = `current->next() == current->prev()` = the ring has one or two members *)
+  Definition wait_cond (s : state) (v : nat) : bool :=
+    let vc := getvc s v in
+    negb (Nat.leb (length (v_runq vc)) 2) || negb (is_nil (v_sleepq vc)) || negb (is_nil (v_standby vc)).
+  Definition online_count (s : state) : Z :=
+    Z.of_nat (length (filter (fun u => negb (offline s u)) (seq 0 (s_nv s)))).
+  (* one evaluation of the loop test and the block that follows it: thread_usleep(1000) if the sleep queue is not
+     empty, else thread_yield(); when the test fails wait_all returns 0, and vcpu_fini goes on (2343-2349, merged
+     into this block: go_offline, state = DONE, join of the idler, which exits, vcpu_destroy; returns --_n_vcpu) *)
+  Definition wait_check (s : state) (v : nat) (c : tid) (fini : bool) : state :=
+    if wait_cond s v then
+      match v_sleepq (getvc s v) with
+      | [] => do_yield (setk s c 2) v true DNone
+      | _ :: _ =>
+          let exp := timeout_of (s_now s) 1000 in
+          if expired (s_now s) exp then do_yield (setk s c 2) v true DNone
+          else if lock_free (th_lock (getth s c)) then do_sleep (setk s c 1) v exp None DNone
+          else s
+      end
+    else ret s c (if fini then online_count s - 1 else 0) 0.
+  (* phases: 0 = entry (a gate of the replay), 3 = loop head again, 1 = back from thread_usleep, 2 = back from thread_yield.
+     Only the main thread of the executing vCPU (thread v on vCPU v) may call it here: a stolen / migrated caller of wait_all
+     would go on with the RunQ and vcpu_t of its old vCPU (not modelled: the replay harness skips the call), and vcpu_fini
+     by any other thread destroys a vCPU under its running main thread (undefined) *)
+  Definition wait_all_op (s : state) (v : nat) (c : tid) (fini : bool) : state :=
+    let th := getth s c in
+    if Nat.eqb c v then
+      match th_k th with
+      | S O => let '(s1, _, _) := set_error_number s c in setk s1 c 3
+      | S (S O) => setk s c 3
+      | _ => wait_check s v c fini
+      end
+    else if fini then stuck s else ret s c SKIPPED 0.
+
   Definition exec_op (s : state) (v : nat) (c : tid) (o : op) : state :=
     let th := getth s c in
     match o with
@@ -429,7 +474,7 @@ Section RUN.
     | OMigrate j u =>                                            (* thread_migrate (2158-2177) *)
         match th_k th with
         | O =>
-            if negb (alive s j && Nat.ltb u (s_nv s) && is_user (th_kind (getth s j))) then ret s c SKIPPED 0
+            if negb (alive s j && Nat.ltb u (s_nv s) && is_user (th_kind (getth s j)) && negb (offline s u)) then ret s c SKIPPED 0
             else if Nat.eqb u v then ret s c 0 0
             else if Nat.eqb j c then do_yield (setk s c 1) v false (DMigrate c u)       (* defer_migrate_current *)
             else if negb (Nat.eqb (th_vcpu (getth s j)) v) then ret s c (-1) EINVAL
@@ -441,6 +486,8 @@ Section RUN.
                  end
         | _ => ret s c 0 0
         end
+    | OWaitAll => wait_all_op s v c false
+    | OFini => wait_all_op s v c true
     end.
 
   Definition retval_of (t : tid) : Z := 1000 + Z.of_nat t.
@@ -527,10 +574,23 @@ Section RUN.
     then take (modvc s u (fun x => set_v_runq x (remove_tid t (v_runq x))))
     else s.
 
+  (* an offline vCPU executes nothing and is in no pvcpu list (no steal scan visits it) *)
+  Definition frozen (s : state) (l : label) : bool :=
+    match l with
+    | LStep v | LDrain v | LResume v => offline s v
+    | LSteal v u _ => offline s v || offline s u
+    | LTick _ => false
+    end.
+  (* the deferred do_thread_migrate(CURRENT, u) of a self-migration whose target vCPU was finalised between the call and
+     the deferred part: the code pushes into a freed vcpu_t — undefined *)
+  Definition pend_to_offline (s : state) (v : nat) : bool :=
+    match v_pend (getvc s v) with PSwitch _ (DMigrate _ u) => offline s u | _ => false end.
+
   Definition step (s : state) (l : label) : state :=
     if s_stuck s then s else
+    if frozen s l then s else
     match l with
-    | LStep v => if Nat.ltb v (s_nv s) then step_vcpu s v else s
+    | LStep v => if Nat.ltb v (s_nv s) then (if pend_to_offline s v then stuck s else step_vcpu s v) else s
     | LDrain v => if Nat.ltb v (s_nv s) && idler_running s v then do_drain s v else s
     | LResume v => if Nat.ltb v (s_nv s) && idler_running s v then do_resume s v else s
     | LSteal v u t => if Nat.ltb v (s_nv s) && idler_running s v then do_steal s v u t else s
